@@ -87,6 +87,10 @@ func (p *Provider) start(ctx context.Context, ammoFile afero.File) error {
 		if p.Passes != 0 && passNum >= p.Passes {
 			break
 		}
+		if ammoNum == 0 {
+			// a whole pass produced nothing: rereading the file would spin forever
+			return errors.New("no ammo in file")
+		}
 		_, err = ammoFile.Seek(0, 0)
 		if err != nil {
 			return errors.Wrap(err, "Failed to seek ammo file")
